@@ -252,6 +252,7 @@ def run_cli(rec):
     from skoolkit import sna2skool, skool2asm, components
     tmp = tempfile.mkdtemp(prefix='c07-')
     n = 0
+    rec.exhaustive = True      # all 10 Opcodes settings over all 1784 opcode sequences
     try:
         data = bytearray()
         for g in GROUPS:
